@@ -61,3 +61,15 @@ add("C16", "fault_enumeration",
     SIM_NOTE,
     "deterministic simulation: single-fault enumeration (tree faults by mutation of valid worlds, I/O faults through the seam) with fault-free controls",
     "DESIGN.md section 4, C16")
+
+add("C17", "fault_enumeration",
+    "The fault is a line at or beyond the scanner's token limit. Every cell of {carrier/command} x {10 lengths, concentrated at 65534..65537} x {first, middle, last} x {final newline yes/no} is enumerated in every run; the command must either fail loudly or be complete (every entry matched by the produced regex, every line present in the rewritten file, the long line byte-identical).",
+    SIM_NOTE,
+    "deterministic simulation: stream-fault enumeration (scanner overflow induced by content) with a complete-or-loud oracle",
+    "DESIGN.md section 4, C17")
+
+add("C18", "exploration",
+    "The simulator owns argv, cwd, -d and the tree layout (nested roots, sibling roots, no root) and observes the resolution through the I/O seam trace and the disk: accepted iff inside the statement's grammar, the file read and the rule line rewritten are the ones the statement names, rejected arguments exit non-zero without a write, file argument and stdin agree, and the root used is the statement's nearest-ancestor rule.",
+    SIM_NOTE,
+    "deterministic simulation: controlled process environment (argv / cwd / -d / tree) with I/O-trace and disk observation against the statement's grammar",
+    "DESIGN.md section 4, C18")
